@@ -1010,6 +1010,8 @@ def _patched_tree(diffs: List[str]):
         (wd / "src/django_components").mkdir(parents=True)
         (wd / rel).write_text((REPO / rel).read_text())
         for d in diffs:
+            if not (ROOT / "proposed_fixes" / d).exists():
+                continue            # applied to the tree meanwhile (`fixed:` in KNOWN_FINDINGS.txt)
             with open(ROOT / "proposed_fixes" / d) as f:
                 p = subprocess.run(["patch", "-s", "-p1", "-d", str(wd)], stdin=f, capture_output=True, text=True)
             if p.returncode != 0:
@@ -1293,6 +1295,10 @@ def selftest(tier: str) -> int:
          "blocktag": "C08-end-tag-inside-generated-block:insertion-lands-in-block.diff",
          "blocktag2": "C08-end-tag-inside-generated-block:insertion-lands-in-block.after-non-utf8-fix.diff"}
     # (the offset repair comes first: the layer-B model of the offset defect is the arithmetic of the current tree)
+    # A proposed fix that has been applied to the tree (`fixed:` line in KNOWN_FINDINGS.txt) has no diff file any
+    # more: the tree itself is then that neutral variant, and only the diffs still pending are patched in.
+    from .core import ROOT
+    pending = {k for k, d in F.items() if (ROOT / "proposed_fixes" / d).exists()}
     neutral = [
         ("proposed fix: offset", _patched_tree([F["offset"]]), ["offset"]),
         ("proposed fix: multi-id placeholder", _patched_tree([F["multiattr"]]), ["multiattr"]),
@@ -1308,6 +1314,8 @@ def selftest(tier: str) -> int:
         with all_fixed():
             with _ci_end_tags(dd, patch):
                 yield
+    if not pending:
+        neutral = []        # every one of them is the tree as it is (checked above as "unpatched")
     neutral.append(("all fixes + upper-case end tags recognised (the other reading of the zone)", fixed_and_ci,
                     ["offset", "multiattr", "nonutf8", "blocktag"]))
     for name, cmf, gone in neutral:
